@@ -44,7 +44,7 @@ META = {
         "np.insert places B's entries in B-line order at tied positions, so the replaced lines must be known ascending. "
         "R8 rlencode and rldecode act along the same axis (round trip). R9 Kronecker numbering: expand_indices_nd numbers "
         "nd*index+component and emits all components of an index together; sparse_kronecker_product is kron(M, eye(nd)) "
-        "(same numbering on rows and columns). Not decided: values of any result; block_diag_index / block_diag_matrix; "
+        "(same numbering on rows and columns). R10 every return of stack_diag has the shape (A0+B0, A1+B1). Not decided: values of any result; block_diag_index / block_diag_matrix; "
         "invert_diagonal_blocks; ArraySlicer (C36); scipy's own semantics (trusted)."),
     "rule_text": "one obligation per (format arm x role site | pointer window | window consumer | indices/data pair | "
                  "extracted identity | wrapper | convention slot)",
@@ -60,7 +60,7 @@ META = {
     "technique": "format/axis typing of guarded arms + pointer-window dataflow + linear-form identities on extracted "
                  "formulas + small symbolic executors for the run-length pair",
 }
-MIN_INSTANCES = {"R1": 26, "R2": 12, "R3": 6, "R4": 5, "R5": 1, "R6": 9, "R7": 1, "R8": 1, "R9": 6}
+MIN_INSTANCES = {"R1": 26, "R2": 10, "R3": 6, "R4": 5, "R5": 1, "R6": 9, "R7": 1, "R8": 1, "R9": 6, "R10": 2}
 
 FMT = {"csr": {"line": 0, "idx": 1}, "csc": {"line": 1, "idx": 0}}
 OTHER = {"csr": "csc", "csc": "csr"}
@@ -87,6 +87,33 @@ def _public_names(mod, qual: str) -> frozenset:
     return frozenset(out)
 
 
+def _split_shape_unpacking(fn: ast.AST) -> None:
+    """`r, c = X.shape`  ->  `r = X.shape[0]; c = X.shape[1]`  (behaviour preserving; makes the axes visible)"""
+    def block(stmts: list) -> None:
+        i = 0
+        while i < len(stmts):
+            s = stmts[i]
+            if isinstance(s, ast.Assign) and len(s.targets) == 1 and isinstance(s.targets[0], ast.Tuple) and len(s.targets[0].elts) == 2 \
+                    and all(isinstance(t, ast.Name) for t in s.targets[0].elts) and isinstance(s.value, ast.Attribute) \
+                    and s.value.attr in ("shape", "_shape"):
+                new = []
+                for k, t in enumerate(s.targets[0].elts):
+                    a = ast.Assign(targets=[ast.Name(id=t.id, ctx=ast.Store())],  # type: ignore[attr-defined]
+                                   value=ast.Subscript(value=copy.deepcopy(s.value), slice=ast.Constant(value=k), ctx=ast.Load()))
+                    new.append(ast.fix_missing_locations(ast.copy_location(a, s)))
+                stmts[i:i + 1] = new
+                i += 2
+                continue
+            for fld in ("body", "orelse", "finalbody"):
+                b = getattr(s, fld, None)
+                if isinstance(b, list) and b and isinstance(b[0], ast.stmt) and not isinstance(s, (ast.FunctionDef, ast.ClassDef)):
+                    block(b)
+            for h in getattr(s, "handlers", []) or []:
+                block(h.body)
+            i += 1
+    block(fn.body)  # type: ignore[attr-defined]
+
+
 class View(Fn):
     """c14.Fn (statement order, CFG, reaching definitions) over a copy of the function on which one level of
     same-module private helpers has been inlined (c34.normalise)."""
@@ -97,6 +124,11 @@ class View(Fn):
         c = mod.get(qual.rsplit(".", 1)[0]) if "." in qual else None
         c = c if isinstance(c, ast.ClassDef) else None
         self.fn = normalise(mod, orig, cls=c, exclude=_public_names(mod, qual)) if inline else copy.deepcopy(orig)
+        if inline:
+            from .c14 import _Desugar
+            _Desugar(mod, self.fn, c).inline_helpers()  # private static/class-method helpers with a straight-line body
+            ast.fix_missing_locations(self.fn)
+        _split_shape_unpacking(self.fn)
         self.params = [a.arg for a in self.fn.args.args + self.fn.args.kwonlyargs]
         self.stmts = list(stmts_local(self.fn))
         self.order = {id(s): i for i, s in enumerate(self.stmts)}
@@ -292,6 +324,10 @@ def _axis_values(f: View, fc: FmtCtx, K: ast.expr, at: ast.AST, depth: int = 3) 
             fo = (OTHER[a[1]] if fc.restricted else None) if a[2] else a[1]
             return [(kb, fb), (ko, fo)]
         raise f.und("axis chosen by a conditional expression that is not a format test", K)
+    if isinstance(K, ast.Subscript) and isinstance(K.value, ast.Dict) and _fmt_subject(K.slice) is not None \
+            and all(isinstance(k_, ast.Constant) and k_.value in FMT for k_ in K.value.keys) \
+            and all(_const_int(v_) is not None for v_ in K.value.values):
+        return [(_const_int(v_), k_.value) for k_, v_ in zip(K.value.keys, K.value.values)]  # type: ignore[misc,union-attr]
     if isinstance(K, ast.Name) and depth > 0:
         out = []
         for d in f.defs.get(K.id, []):
@@ -306,19 +342,29 @@ def _axis_values(f: View, fc: FmtCtx, K: ast.expr, at: ast.AST, depth: int = 3) 
 def _shape_reads_in(f: View, fc: FmtCtx, e: ast.expr, depth: int = 4) -> list[tuple[int, Optional[str], ast.AST]]:
     """all (axis, format, node) of shape reads that flow into e (through all definitions of the names in e)"""
     out = []
-    seen: set[str] = set()
+    seen: set = set()
 
-    def walk(x: ast.AST, d: int) -> None:
-        for n in ast.walk(x):
-            sr = _shape_read(n)
-            if sr is not None:
-                for k, fm in _axis_values(f, fc, sr[1], n):
-                    out.append((k, fm, n))
-            elif isinstance(n, ast.Name) and isinstance(n.ctx, ast.Load) and d > 0 and n.id not in seen:
-                seen.add(n.id)
-                for dd in f.defs.get(n.id, []):
+    def walk(x: ast.AST, d: int, forced: Optional[str] = None) -> None:
+        if isinstance(x, ast.IfExp) and _fmt_atom(x.test) is not None:
+            a = _fmt_atom(x.test)
+            other = OTHER[a[1]] if fc.restricted else None  # type: ignore[index]
+            walk(x.body, d, a[1] if a[2] else other)  # type: ignore[index]
+            walk(x.orelse, d, other if a[2] else a[1])  # type: ignore[index]
+            return
+        sr = _shape_read(x)
+        if sr is not None:
+            for k, fm in _axis_values(f, fc, sr[1], x):
+                out.append((k, fm if fm is not None else forced, x))
+            return
+        if isinstance(x, ast.Name) and isinstance(x.ctx, ast.Load):
+            if d > 0 and (x.id, forced) not in seen:
+                seen.add((x.id, forced))  # type: ignore[arg-type]
+                for dd in f.defs.get(x.id, []):
                     if dd.value is not None and dd.kind in ("plain", "aug"):
-                        walk(dd.value, d - 1)
+                        walk(dd.value, d - 1, forced)
+            return
+        for ch in ast.iter_child_nodes(x):
+            walk(ch, d, forced)
 
     walk(e, depth)
     return out
@@ -337,6 +383,11 @@ def rule_format_axis(ctx: Ctx, mod, quals: list[str]) -> None:
             nm = n.attr if isinstance(n, ast.Attribute) else (n.id if isinstance(n, ast.Name) else None)
             if nm in CTOR_FMT and isinstance(getattr(n, "ctx", None), ast.Load):
                 F = fc.fmt(n)
+                par = f.pm.get(n)
+                if F is None and isinstance(par, ast.Dict) and any(v_ is n for v_ in par.values):
+                    k_ = par.keys[[id(v_) for v_ in par.values].index(id(n))]
+                    if isinstance(k_, ast.Constant) and k_.value in FMT:
+                        F = k_.value  # {"csr": sps.csr_matrix, ...}[fmt]
                 if F is None:
                     continue
                 ctx.check("R1", CTOR_FMT[nm] == F, mod, q, n,
@@ -367,9 +418,11 @@ def rule_format_axis(ctx: Ctx, mod, quals: list[str]) -> None:
             if isinstance(n, ast.Call) and call_name(n) in CTOR_FMT:
                 F = fc.fmt(n)
                 shp = kwarg(n, "shape") or (n.args[1] if len(n.args) > 1 else None)
+                at = f.stmt_of(n)
+                if isinstance(shp, ast.Name):
+                    shp = f.canon2(shp, at, depth=1)
                 if F is None or not (isinstance(shp, ast.Tuple) and len(shp.elts) == 2):
                     continue
-                at = f.stmt_of(n)
                 els = [f.canon2(x, at) for x in shp.elts]
                 rd = [_shape_read(x) for x in els]
                 if not any(rd):
@@ -413,8 +466,9 @@ def rule_format_axis(ctx: Ctx, mod, quals: list[str]) -> None:
 
                 def reads(x):
                     return [(_const_int(_shape_read(m)[1])) for m in ast.walk(x) if _shape_read(m)]  # type: ignore[index]
-                ri, rj = reads(n.value.elts[i]), reads(n.value.elts[j])
-                ok = ri == [i] and rj == [j, j] and isinstance(n.value.elts[j], ast.BinOp) and isinstance(n.value.elts[j].op, ast.Add)
+                ei, ej = f.canon2(n.value.elts[i], n), f.canon2(n.value.elts[j], n)
+                ri, rj = reads(ei), reads(ej)
+                ok = ri == [i] and rj == [j, j] and isinstance(ej, ast.BinOp) and isinstance(ej.op, ast.Add)
                 ctx.check("R1", ok, mod, q, n,
                           f"appending to a {F} matrix adds lines along axis {j} and leaves axis {i} unchanged; found {u(n.value)}",
                           construct=f"{F} arm: shape grows along axis {j}", facts={"arm": F, "value": u(n.value)})
@@ -666,10 +720,14 @@ def rule_parallel_arrays(ctx: Ctx, mod, quals: list[str]) -> None:
                 pass
         # (ii) constructor triples (data, indices, indptr)
         for n in _nodes(f):
-            if isinstance(n, ast.Call) and n.args and isinstance(n.args[0], ast.Tuple) and len(n.args[0].elts) == 3 \
-                    and (call_name(n) in CTOR_FMT or _is_ctor_var(f, n)):
+            if not (isinstance(n, ast.Call) and n.args and (call_name(n) in CTOR_FMT or _is_ctor_var(f, n))):
+                continue
+            first = n.args[0]
+            if isinstance(first, ast.Name):
+                first = f.canon2(first, f.stmt_of(n), depth=1)
+            if isinstance(first, ast.Tuple) and len(first.elts) == 3:
                 at = f.stmt_of(n)
-                d, i = (f.canon2(x, at) for x in n.args[0].elts[:2])
+                d, i = (f.canon2(x, at) for x in first.elts[:2])
                 if not (_mentions_attr(d, "data") or _mentions_attr(d, "indices")) or \
                         not (_mentions_attr(i, "data") or _mentions_attr(i, "indices")):
                     continue  # built from scratch, nothing parallel to compare
@@ -899,9 +957,9 @@ def rule_expand_index_pointers(ctx: Ctx, amod) -> None:
         return
     ex = _LinExec(f, {"lo": "LO", "hi": "HI"})
     ex.run(f.fn.body)
-    if not (isinstance(main[0].value, ast.Call) and call_name(main[0].value) == "cumsum"):
+    if not (isinstance(raw, ast.Call) and call_name(raw) == "cumsum"):
         raise f.und("result is neither a cumulative sum of increments nor a concatenation of aranges", main[0])
-    xarg = main[0].value.args[0] if main[0].value.args else None  # type: ignore[union-attr]
+    xarg = raw.args[0] if raw.args else (raw.func.value if isinstance(raw.func, ast.Attribute) else None)
     if not isinstance(xarg, ast.Name):
         raise f.und("cumulative sum is not taken of a named increment array", main[0])
     xname = xarg.id
@@ -999,6 +1057,8 @@ def _cat_parts(e: ast.expr) -> Optional[list[ast.expr]]:
         return list(e.args)
     if isinstance(e, ast.Subscript) and isinstance(e.value, ast.Attribute) and e.value.attr == "r_" and isinstance(e.slice, ast.Tuple):
         return list(e.slice.elts)
+    if isinstance(e, ast.Call) and call_name(e) == "insert" and len(e.args) == 3 and _const_int(e.args[1]) == 0:
+        return [e.args[2], e.args[0]]  # np.insert(x, 0, c) == (c, x)
     return None
 
 
@@ -1027,7 +1087,9 @@ def analyse_rldecode(ctx: Ctx, mod) -> Optional[int]:
         raise f.und("expected one return")
     rv = f.canon2(rets[0].value, rets[0])  # type: ignore[arg-type]
     if isinstance(rv, ast.Call) and call_name(rv) == "repeat" and len(rv.args) >= 2:
-        ok = u(rv.args[0]) == "A" and u(rv.args[1]) == "n"
+        a0, a1 = rv.args[0], rv.args[1]
+        ok = (u(a0) == "A" and u(a1) == "n") or (isinstance(a0, ast.Subscript) and isinstance(a1, ast.Subscript)
+                                                   and u(a0.value) == "A" and u(a1.value) == "n" and u(a0.slice) == u(a1.slice))
         ax = kwarg(rv, "axis")
         ctx.check("R5", ok, mod, q, rets[0], "np.repeat must repeat A by n", construct="rldecode: values and counts on the same runs")
         for k in ("positive-count mask", "marks on interior pointers", "length of the mark array"):
@@ -1058,8 +1120,10 @@ def analyse_rldecode(ctx: Ctx, mod) -> Optional[int]:
         _, ri = _gather_axis(g_raw)
         if ri is not None:
             c_raw, c_at = step(ri, g_at)
-            if isinstance(c_raw, ast.Call) and call_name(c_raw) == "cumsum" and c_raw.args and isinstance(c_raw.args[0], ast.Name):
-                jname = c_raw.args[0].id
+            if isinstance(c_raw, ast.Call) and call_name(c_raw) == "cumsum":
+                src = c_raw.args[0] if c_raw.args else (c_raw.func.value if isinstance(c_raw.func, ast.Attribute) else None)
+                if isinstance(src, ast.Name) and src.id not in ("np", "numpy"):
+                    jname = src.id
     if jname is None:
         raise f.und("mark array not found", rets[0])
     jdefs = [d for d in f.defs.get(jname, []) if d.kind == "plain"]
@@ -1189,6 +1253,11 @@ def analyse_rlencode(ctx: Ctx, mod) -> Optional[int]:
     if not (isinstance(cnts, ast.Call) and call_name(cnts) == "diff" and cnts.args):
         raise f.und("counts are not np.diff of the run boundaries", rets[0])
     seq = _cat_parts(cnts.args[0])
+    pre, app = kwarg(cnts, "prepend"), kwarg(cnts, "append")
+    if pre is not None and app is None:
+        seq = [pre, cnts.args[0]]       # np.diff(x, prepend=c) == np.diff((c, x))
+    elif app is not None and pre is None:
+        seq = [cnts.args[0], app]
     if not seq or len(seq) != 2:
         raise f.und("run boundaries are not a two-part concatenation", rets[0])
 
@@ -1279,10 +1348,11 @@ def rule_merge_order(ctx: Ctx, mod) -> None:
     if len(f.params) < 3:
         raise AnchorError(f"{MO}:{q}: signature changed ({f.params})")
     lines = f.params[2]
-    ins = [n for n in _nodes(f) if isinstance(n, ast.Call) and call_name(n) == "insert" and len(n.args) >= 3]
+    ins = [n for n in _nodes(f) if isinstance(n, ast.Call) and call_name(n) == "insert"
+           and (len(n.args) >= 2 or kwarg(n, "obj") is not None)]
     sites = []
     for c in ins:
-        pos = f.canon2(c.args[1], f.stmt_of(c))
+        pos = f.canon2(c.args[1] if len(c.args) >= 2 else kwarg(c, "obj"), f.stmt_of(c))  # type: ignore[arg-type]
         reps = [r for r in ast.walk(pos) if isinstance(r, ast.Call) and call_name(r) == "repeat" and r.args
                 and isinstance(r.args[0], ast.Subscript) and lines in names_in(r.args[0].slice)]
         if reps:
@@ -1330,6 +1400,38 @@ def rule_merge_order(ctx: Ctx, mod) -> None:
 #  R9  Kronecker numbering convention
 # =====================================================================================
 
+def param_values(f: View, node: ast.AST, param: str, universe=(-1, 0, 1, 2, 3)) -> list[int]:
+    """values of an integer parameter for which `node` is reached, judged from the enclosing tests `param <op> const`
+    and from earlier terminal ifs of the enclosing blocks (early return / raise)"""
+    conds = []
+
+    def atom(t):
+        neg = False
+        while isinstance(t, ast.UnaryOp) and isinstance(t.op, ast.Not):
+            t, neg = t.operand, not neg
+        if isinstance(t, ast.Compare) and len(t.ops) == 1 and u(t.left) == param and _const_int(t.comparators[0]) is not None \
+                and type(t.ops[0]) in _CMP:
+            return type(t.ops[0]), _const_int(t.comparators[0]), neg
+        return None
+    cur = node
+    while cur is not f.fn and cur in f.pm:
+        par = f.pm[cur]
+        if isinstance(par, ast.If) and cur is not par.test:
+            a = atom(par.test)
+            if a:
+                conds.append((a[0], a[1], any(cur is x for x in par.body) != a[2]))
+        for fld in ("body", "orelse", "finalbody"):
+            blk = getattr(par, fld, None)
+            if isinstance(blk, list) and any(cur is x for x in blk):
+                for prev in blk[:[id(x) for x in blk].index(id(cur))]:
+                    if isinstance(prev, ast.If) and not prev.orelse and _terminal(prev.body):
+                        a = atom(prev.test)
+                        if a:
+                            conds.append((a[0], a[1], a[2]))
+        cur = par
+    return [d for d in universe if all(_CMP[op](d - c) == holds for op, c, holds in conds)]
+
+
 def nd_numbering(ctx_or_none, amod) -> dict:
     """Convention extracted from expand_indices_nd: {'numbering': 'component-minor'|'component-major'|None,
     'grouping': 'per-index'|'per-component'|None} plus the nodes."""
@@ -1337,10 +1439,16 @@ def nd_numbering(ctx_or_none, amod) -> dict:
     f = View(amod, q)
     if f.params[:2] != ["ind", "nd"]:
         raise AnchorError(f"{AO}:{q}: signature changed ({f.params})")
-    main = [s for s in f.stmts if isinstance(s, ast.Return) and s.value is not None and not isinstance(f.pm.get(s), ast.If)]
+    allret = [s for s in f.stmts if isinstance(s, ast.Return) and s.value is not None]
+    main = [s for s in allret if 2 in param_values(f, s, "nd")]
+    shortcuts = [s for s in allret if param_values(f, s, "nd", universe=(1, 2, 3)) == [1]]
     if len(main) != 1:
-        raise f.und("expected one unconditional return")
+        raise f.und("expected one return for nd >= 2")
     rv = f.canon2(main[0].value, main[0])  # type: ignore[arg-type]
+    if isinstance(rv, ast.Call) and call_name(rv) == "ravel" and isinstance(rv.func, ast.Attribute) and isinstance(rv.func.value, ast.Name) \
+            and rv.func.value.id in ("np", "numpy") and rv.args:
+        # np.ravel(table, order) -> table.ravel(order)
+        rv = ast.Call(func=ast.Attribute(value=rv.args[0], attr="ravel", ctx=ast.Load()), args=list(rv.args[1:]), keywords=list(rv.keywords))
     if not (isinstance(rv, ast.Call) and call_name(rv) in ("ravel", "flatten", "reshape") and isinstance(rv.func, ast.Attribute)):
         raise f.und("result is not <2-d index table>.ravel(order)", main[0])
     # order argument
@@ -1414,11 +1522,9 @@ def nd_numbering(ctx_or_none, amod) -> dict:
     # flattening: 'F' runs over axis 0 fastest, 'C' over axis 1 fastest
     fastest = 0 if order == "F" else 1
     grouping = "per-index" if fastest == comp_axis else "per-component"
-    one = [s for s in f.stmts if isinstance(s, ast.If) and isinstance(s.test, ast.Compare) and u(s.test.left) == "nd"
-           and _const_int(s.test.comparators[0]) == 1 and isinstance(s.test.ops[0], ast.Eq)]
     return {"numbering": numbering, "grouping": grouping, "order": order, "node": main[0], "coef": (ci, cc),
-            "shortcut_ok": all(len(s.body) == 1 and isinstance(s.body[0], ast.Return) and u(s.body[0].value) == "ind" for s in one),  # type: ignore[arg-type]
-            "shortcut": one[0] if one else None}
+            "shortcut_ok": all(u(s.value) in ("ind", "ind.copy()") for s in shortcuts),  # type: ignore[arg-type]
+            "shortcut": shortcuts[0] if shortcuts else None}
 
 
 def kron_sides(f: View, e: ast.expr, at: ast.stmt) -> Optional[tuple[ast.Call, str, ast.expr, ast.expr]]:
@@ -1452,7 +1558,8 @@ def rule_kron_convention(ctx: Ctx, mod, amod) -> None:
     f = View(mod, q)
     if f.params[:2] != ["matrix", "nd"]:
         raise AnchorError(f"{MO}:{q}: signature changed ({f.params})")
-    krs = [(s, kron_sides(f, s.value, s)) for s in f.stmts if isinstance(s, ast.Return) and s.value is not None]
+    krs = [(s, kron_sides(f, s.value, s)) for s in f.stmts if isinstance(s, ast.Return) and s.value is not None  # type: ignore[arg-type]
+           and 2 in param_values(f, s, "nd")]
     krs = [(s, k) for s, k in krs if k is not None]
     if len(krs) != 1:
         raise f.und("expected one returned Kronecker product")
@@ -1466,12 +1573,63 @@ def rule_kron_convention(ctx: Ctx, mod, amod) -> None:
     ctx.check("R9", u(m) == "matrix" and u(n) == "nd", mod, q, s,
               f"the expanded matrix is the argument and the identity has size nd; found {u(call)}",
               construct="sparse_kronecker_product: operands")
-    one = [x for x in f.stmts if isinstance(x, ast.If) and isinstance(x.test, ast.Compare) and u(x.test.left) == "nd"
-           and _const_int(x.test.comparators[0]) == 1]
-    for x in one:
-        arm = x.body if isinstance(x.test.ops[0], ast.Eq) else x.orelse
-        ctx.check("R9", len(arm) == 1 and isinstance(arm[0], ast.Return) and u(arm[0].value) == "matrix", mod, q, x,  # type: ignore[arg-type]
+    for x in [r for r in f.stmts if isinstance(r, ast.Return) and r.value is not None and param_values(f, r, "nd", universe=(1, 2, 3)) == [1]]:
+        ctx.check("R9", u(f.canon2(x.value, x)) == "matrix", mod, q, x,  # type: ignore[arg-type]
                   "for nd == 1 the product is the matrix itself", construct="sparse_kronecker_product: nd == 1 shortcut")
+
+
+# =====================================================================================
+#  R10  stack_diag: every return has the block-diagonal shape
+# =====================================================================================
+
+def rule_stack_diag_shape(ctx: Ctx, mod) -> None:
+    q = "stack_diag"
+    f = View(mod, q)
+    if f.params[:2] != ["A", "B"]:
+        raise AnchorError(f"{MO}:{q}: signature changed ({f.params})")
+    rets = [s for s in f.stmts if isinstance(s, ast.Return) and s.value is not None]
+    if not rets:
+        raise AnchorError(f"{MO}:{q}: no return")
+    shape_sets = [s for s in f.stmts if isinstance(s, ast.Assign) and len(s.targets) == 1 and isinstance(s.targets[0], ast.Attribute)
+                  and s.targets[0].attr in ("_shape", "shape") and isinstance(s.value, ast.Tuple) and len(s.value.elts) == 2]
+    for r in rets:
+        if isinstance(r.value, ast.Name) and r.value.id in ("A", "B") and f.unique_def(r.value.id, r) is None:
+            other = "B" if r.value.id == "A" else "A"
+            # what the enclosing tests establish about the other operand
+            conds = []
+            cur: ast.AST = r
+            while cur is not f.fn and cur in f.pm:
+                par = f.pm[cur]
+                if isinstance(par, ast.If) and any(cur is x for x in par.body):
+                    conds.append(par.test)
+                cur = par
+            txt = " and ".join(u(c) for c in conds)
+            both = any(
+                (isinstance(c, ast.Compare) and u(c.left) == f"{other}.shape" and u(c.comparators[0]) in ("(0, 0)",))
+                or (f"{other}.shape[0] == 0" in u(c) and f"{other}.shape[1] == 0" in u(c))
+                or u(c) in (f"max({other}.shape) == 0", f"sum({other}.shape) == 0")
+                for c in conds)
+            if not both and any(n_ in txt for n_ in (f"{other}.shape", f"{other}._shape")):
+                raise f.und("early return guarded by a shape test that is not recognised", r)
+            ctx.check("R10", both, mod, q, r,
+                      f"[[A, 0], [0, B]] has shape (A0+B0, A1+B1) for every A, B; this path returns {r.value.id} unchanged under "
+                      f"`{txt}`, which says that {other} has no lines but not that its other extent is zero "
+                      f"(A 2x2 csr, B 0x3 csr: result 2x2, sps.block_diag gives 2x5)",
+                      construct=f"stack_diag: early return of {r.value.id} keeps the extent of {other}",
+                      facts={"guard": txt, "failing_input": "stack_diag(csr(ones((2,2))), csr((0,3))).shape == (2,2) != (2,5)"})
+        else:
+            c = f.canon2(r.value, r)
+            nm = r.value.id if isinstance(r.value, ast.Name) else None
+            ss = [s_ for s_ in shape_sets if nm is not None and u(s_.targets[0].value) == nm]
+            if len(ss) != 1:
+                raise f.und("main return is not an object whose shape is set once", r)
+            els = ss[0].value.elts  # type: ignore[attr-defined]
+
+            def axes(x):
+                return sorted((_shape_read(m)[0], _const_int(_shape_read(m)[1])) for m in ast.walk(x) if _shape_read(m))  # type: ignore[index]
+            ok = all(axes(els[k]) == [("A", k), ("B", k)] and isinstance(els[k], ast.BinOp) and isinstance(els[k].op, ast.Add) for k in (0, 1))
+            ctx.check("R10", ok, mod, q, ss[0], f"the block-diagonal matrix has shape (A0+B0, A1+B1); found {u(ss[0].value)}",
+                      construct="stack_diag: shape of the result")
 
 
 # =====================================================================================
@@ -1514,13 +1672,14 @@ def run(ctx: Ctx) -> None:
     rule_name_axis(ctx, mod)
     rule_wrappers(ctx, mod)
     n = rule_pointer_windows(ctx, mod, WINDOW_FUNCS)
-    if n < 7:
-        raise AnchorError(f"{MO}: expected at least 7 pointer windows in {WINDOW_FUNCS}, found {n}")
+    if n < 5:
+        raise AnchorError(f"{MO}: expected at least 5 pointer windows in {WINDOW_FUNCS}, found {n}")
     rule_parallel_arrays(ctx, mod, PARALLEL_FUNCS)
     rule_expand_index_pointers(ctx, amod)
     rule_run_length(ctx, mod)
     rule_merge_order(ctx, mod)
     rule_kron_convention(ctx, mod, amod)
+    rule_stack_diag_shape(ctx, mod)
     ctx.sample({"format_axis_table": FMT})
     if ctx.tier == "thorough":
         _sweep_windows(ctx)
@@ -1568,6 +1727,9 @@ MUTANTS = [
     _m("eip-jump-from-own-upper-bound", "lo[1:] - hi[0:-1]\n", "lo[1:] - hi[1:]\n", "R4", file=AO),
     _m("eip-lo-unfiltered", "lo = lo[pos_diff].astype(int)", "lo = lo.astype(int)", "R4", file=AO),
     _m("eip-jump-positions-all-lengths", "x[np.cumsum(num_elements_in_interval[0:-1])]", "x[np.cumsum(num_elements_in_interval[1:])]", "R4", file=AO),
+    # ---- R5 rldecode: values restricted like the counts (reverted fix 9e1228e1d)
+    _m("revert-fix-rldecode-unrestricted-values", "    B = A[r][np.cumsum(j)]\n", "    B = A[np.cumsum(j)]\n", "R5", control=True),
+    _m("rldecode-values-filtered-by-other-mask", "    B = A[r][np.cumsum(j)]\n", "    B = A[n >= 0][np.cumsum(j)]\n", "R5"),
     # ---- R6 run-length internals
     _m("rldecode-marks-include-first-pointer", "j[i[1:-1:]] = 1", "j[i[0:-1:]] = 1", "R6"),
     _m("rldecode-mask-drops-single-repeats", "    r = n > 0\n", "    r = n > 1\n", "R6", control=True),
@@ -1575,6 +1737,9 @@ MUTANTS = [
     _m("rlencode-final-boundary-from-rows", "i = np.hstack((np.argwhere(i).ravel(), (A.shape[1] - 1)))", "i = np.hstack((np.argwhere(i).ravel(), (A.shape[0] - 1)))", "R6"),
     _m("rlencode-all-components-must-differ", "i = np.any(comp, axis=0)", "i = np.all(comp, axis=0)", "R6"),
     _m("rlencode-ends-shifted", "i = np.hstack((np.argwhere(i).ravel(), (A.shape[1] - 1)))", "i = np.hstack((np.argwhere(i).ravel() + 1, (A.shape[1] - 1)))", "R6"),
+    # ---- R10
+    _m("stack-diag-shape-only-rows-grow", "C._shape = (A._shape[0] + B._shape[0], A._shape[1] + B._shape[1])",
+       "C._shape = (A._shape[0] + B._shape[0], A._shape[1] + B._shape[0])", "R10"),
     # ---- R9 Kronecker numbering
     _m("kron-product-identity-first", "return sps.kron(matrix, sps.eye(nd)).tocsc()", "return sps.kron(sps.eye(nd), matrix).tocsc()", "R9", control=True),
     _m("expand-indices-component-major", "new_ind = nd * ind + dim_inds", "new_ind = ind + nd * dim_inds", "R9", file=AO),
